@@ -303,7 +303,8 @@ func run(c *lib.Ctx) error {
 		return err
 	}
 	c.Assume("TLC is trusted. Primitives evaluated by the executor and given to the specification as data: the parse-error byte ranges of a text (parse.Parse), the completion candidates and replace range at a byte offset (complete.Complete with a fresh Evaler and the default Config, in the same empty directory and with the same PATH as the server child), the documentation text of a builtin (doc.Source)")
-	c.Assume("Unspecified and accepted either way: where positions past the end of a line / past the last line / between surrogate halves land; the position reported for the offset between CR and LF (end of line or start of next line); result or error for an unknown document; order of publications; hover content except inside an isolated documented command word on an error-free document")
+	c.Assume("the offset between CR and LF has no position of its own: index -> position must give the start of the next line (the next offset that has a position), so that a non-empty byte range stays a non-empty position range")
+	c.Assume("Unspecified and accepted either way: where positions past the end of a line / past the last line / between surrogate halves land; result or error for an unknown document; order of publications; hover content except inside an isolated documented command word on an error-free document")
 	return nil
 }
 
